@@ -43,28 +43,42 @@ def run(ck):
     outcomes = set()
     samples = []
 
-    def direct(u):
+    def direct(u, numeric_db=False):
         items = alphabet(u) if ck.tier == 'quick' or True else alphabet(u)
         if ck.tier == 'thorough':
             items = items[:22]
-        w = os.path.join(ck.workdir, 'd%d' % u)
+        w = os.path.join(ck.workdir, ('n%d' if numeric_db else 'd%d') % u)
         os.makedirs(w, exist_ok=True)
-        r = sh([h, str(maxlen)], input=('%d %s\n' % (u, ' '.join(items))).encode(), env=H.san_env(w), cwd=w, timeout=1500)
+        env = H.san_env(w)
+        if numeric_db:
+            # every all-digit list item is ALSO the login name of an account with a different uid: a uid list is a list of numbers, not of names
+            etc = os.path.join(w, 'etc')
+            os.makedirs(etc, exist_ok=True)
+            digits = sorted(set(x for x in items if x.isdigit()))
+            open(os.path.join(etc, 'passwd'), 'w').write(open('/etc/passwd').read() + ''.join('%s:x:%d:%d::/:/bin/false\n' % (name, 700000 + i, 700000 + i) for i, name in enumerate(digits)) +
+                                                         ''.join('n%d:x:%s:1::/:/bin/false\n' % (i, name) for i, name in enumerate(digits) if int(name) < 2 ** 32 - 1 and int(name) not in (0,)))
+            open(os.path.join(etc, 'group'), 'w').write(open('/etc/group').read())
+            os.chmod(w, 0o755); os.chmod(etc, 0o755)
+            for f in ('passwd', 'group'):
+                os.chmod(os.path.join(etc, f), 0o644)
+            env['VERIF_ETC_DIR'] = etc
+        r = sh([h, str(2 if numeric_db else maxlen)], input=('%d %s\n' % (u, ' '.join(items))).encode(), env=env, cwd=w, timeout=1500)
         reports = [open(os.path.join(w, f), errors='replace').read()[:2000] for f in os.listdir(w) if f.startswith(('asan.', 'ubsan.'))]
         return u, r, reports, len(items)
-    for u, r, reports, ni in pmap(direct, UIDS):
+    djobs = [(u, False) for u in UIDS] + [(u, True) for u in UIDS]
+    for (u0, numdb), (u, r, reports, ni) in zip(djobs, pmap(lambda a: direct(*a), djobs)):
         out = r.stdout.decode()
         summ = [l for l in out.splitlines() if l.startswith('uid=')]
         if r.returncode != 0 or reports or not summ:
-            ck.violation('C14:abort:uid=%d' % u, {'rc': r.returncode, 'stderr': r.stderr.decode()[-300:], 'sanitizer': reports[:1]})
+            ck.violation('C14:abort:uid=%d%s' % (u, ':database=numeric_login_names' if numdb else ''), {'rc': r.returncode, 'stderr': r.stderr.decode()[-300:], 'sanitizer': reports[:1]})
             continue
         n = int(summ[0].split('lists=')[1].split()[0])
         evals += n
-        outcomes.add((u, 'direct', n, summ[0].split('mismatches=')[1]))
+        outcomes.add((u, 'direct', numdb, n, summ[0].split('mismatches=')[1]))
         for l in out.splitlines():
             if l.startswith('MISMATCH'):
                 f = dict(x.split('=', 1) for x in l.split()[1:])
-                ck.violation('C14:filter_decision:uid=%s:list=%s%s' % (f['uid'], f['list'][:60], '' if f.get('errno_before') == '0' else ':ambient_errno=' + f.get('errno_before', '?')), {'line': l})
+                ck.violation('C14:filter_decision:uid=%s:list=%s%s' % (f['uid'], f['list'][:60], ('' if f.get('errno_before') == '0' else ':ambient_errno=' + f.get('errno_before', '?')) + (':database=numeric_login_names' if numdb else '')), {'line': l})
         samples.append({'uid': u, 'lists': n, 'alphabet': ni})
     # whole path: all lists of <= 2 items, both filters
     def whole(u):
